@@ -27,6 +27,11 @@ func (y CheckWhen) check(s *Selection, m meta.Meta) (bool, error) {
 	}
 	if hw, ok := m.(meta.HasWhen); ok {
 		if hw.When() != nil {
+			// the when of a leaf is evaluated at the node that holds the leaf: a
+			// selection made on the leaf itself stands for its parent here
+			if s.Path != nil && meta.IsLeaf(s.Path.Meta) && s.parent != nil {
+				s = s.parent
+			}
 			xp, err := xpath.Parse(hw.When().Expression())
 			if err != nil {
 				return false, err
